@@ -149,6 +149,13 @@ class Checker(object):
                 break
         # I3 composite coherence
         if not F.get_is_leaf():
+            want_w = EXPECTED_WEIGHTS.get(id(F))
+            if want_w is not None:
+                self.n += 1
+                got_w = {id(f): float(w) for f, w in F.decomposition_dict.items() if w != 0}
+                if set(got_w) != set(want_w) or any(abs(got_w[k] - want_w[k]) > 1e-12 * (1 + abs(want_w[k])) for k in want_w):
+                    self.v("composite_weights_not_as_written", "a composite function does not carry the weights of the expression that built it "
+                           "(%s instead of %s) after %s" % (sorted(got_w.values()), sorted(want_w.values()), after_call))
             terms = [(f, float(w)) for f, w in F.decomposition_dict.items() if w != 0]
             tsamples = {id(f): [(ppt(x), cpoint(g), cexpr(v)) for (x, g, v) in f.list_of_points] for f, _ in terms}
             for t in trip:
@@ -184,6 +191,9 @@ DECLARED_DIFF = {}
 KEEP = []
 
 # ---- workload ----------------------------------------------------------------------------------------------
+EXPECTED_WEIGHTS = {}      # id(composite) -> {id(leaf): weight} as written
+
+
 DIFF = ["SmoothConvexFunction", "SmoothStronglyConvexFunction", "SmoothFunction", "LipschitzOperator", "CocoerciveOperator",
         "LinearOperator", "SymmetricLinearOperator"]
 NONDIFF = ["ConvexFunction", "ConvexLipschitzFunction", "StronglyConvexFunction", "MonotoneOperator",
@@ -213,9 +223,38 @@ def build_functions(rng, pep):
     comps = []
     shapes = []
     ncomp = rng.randint(0, 3) if nleaf > 1 else rng.randint(0, 1)
+
+    # every composite is built twice: by the real operators, and as a plain {leaf: weight} dictionary (what the written
+    # expression means); the two must agree whatever fast paths the operators take
+    class WF(object):
+        def __init__(self, obj, w):
+            self.obj, self.w = obj, w
+
+        def __add__(self, o):
+            w = dict(self.w)
+            for k, v in o.w.items():
+                w[k] = w.get(k, 0.0) + v
+            return WF(self.obj + o.obj, w)
+
+        def __sub__(self, o):
+            w = dict(self.w)
+            for k, v in o.w.items():
+                w[k] = w.get(k, 0.0) - v
+            return WF(self.obj - o.obj, w)
+
+        def __mul__(self, c):
+            return WF(self.obj * c, {k: v * c for k, v in self.w.items()})
+
+        def __rmul__(self, c):
+            return WF(c * self.obj, {k: c * v for k, v in self.w.items()})
+
+        def __truediv__(self, c):
+            return WF(self.obj / c, {k: v / c for k, v in self.w.items()})
+
     for _ in range(ncomp):
-        shape = rng.choice(["sum", "weighted", "nested", "zero_weight", "cancel", "single_scaled", "sub"])
+        shape = rng.choice(["sum", "weighted", "nested", "zero_weight", "cancel", "single_scaled", "sub", "repeated_leaf"])
         fs = rng.sample(leaves, min(len(leaves), rng.randint(2, 3))) if len(leaves) > 1 else leaves * 1
+        fs = [WF(f_, {id(f_): 1.0}) for f_ in fs]
         w = lambda: rng.choice([1, 2, -1, 0.5, 9 / 5, 3.0, -0.25])
         if shape == "sum" and len(fs) > 1:
             F = fs[0] + fs[1]
@@ -227,6 +266,9 @@ def build_functions(rng, pep):
                 F = F + w() * f
         elif shape == "nested" and len(fs) > 1:
             F = (fs[0] + 2 * fs[1]) / 2 - fs[-1] * 0.5 + fs[0]
+        elif shape == "repeated_leaf" and len(fs) > 1:
+            F = rng.choice([lambda: (fs[0] + fs[1]) + fs[0], lambda: (2 * fs[0] + fs[1] / 2) + fs[1], lambda: fs[0] + fs[0],
+                            lambda: (fs[0] - fs[1]) + fs[1] + fs[1], lambda: fs[0] + (fs[1] + fs[0])])()
         elif shape == "zero_weight" and len(fs) > 1:
             F = fs[0] + 0 * fs[1]
             if len(fs) > 2:
@@ -240,6 +282,9 @@ def build_functions(rng, pep):
         else:
             F = w() * fs[0]
             shape = "single_scaled"
+        EXPECTED_WEIGHTS[id(F.obj)] = {k: v for k, v in F.w.items() if v != 0}
+        KEEP.append(F.obj)
+        F = F.obj
         comps.append(F)
         shapes.append(shape)
     return leaves, comps, shapes
